@@ -88,10 +88,15 @@ def walLevelNames : List String := ["minimal", "replica", "logical"]
 `walLevel` is `int(uint32)`, never negative -/
 def walLevelName (n : Nat) : String := if n < walLevelNames.length then walLevelNames.getD n "" else ""
 
-/-- inferPGVersion -/
+/-- inferPGVersion (with fixes/control/10: from PG_CONTROL_VERSION 1201 on the major version is read off the catalog
+version number — 1201 is PostgreSQL 12 only, 1300 is 13 through 16) -/
 def inferPGVersion (controlVersion catalogVersion : Nat) : Nat :=
-  if controlVersion ≥ 1300 then (if catalogVersion ≥ 202307071 then 16 else 15)
-  else if controlVersion ≥ 1201 then (if catalogVersion ≥ 202107181 then 14 else 13)
+  if controlVersion ≥ 1201 then
+    (if catalogVersion ≥ 202307071 then 16
+     else if catalogVersion ≥ 202209061 then 15
+     else if catalogVersion ≥ 202107181 then 14
+     else if catalogVersion ≥ 202007201 then 13
+     else 12)
   else if controlVersion ≥ 1100 then (if catalogVersion ≥ 201909212 then 12 else 11)
   else if controlVersion ≥ 1002 then 10
   else if controlVersion ≥ 960 then 9
